@@ -7,10 +7,10 @@ import SeedProofs.Lemmas.C19Held
 namespace Seed.C19
 open Seed Seed.C10
 
-/-- the only iteration over a hash-ordered collection in the sources is `remaining_keys.iter()` in bind.rs, and it is
+/-- the only iteration over a hash-ordered collection in the sources is the `.iter()` over a `HashSet` in `bind_object` (bind.rs), and it is
     collected into a `BTreeMap` (ordered) before anything observes it — a `decide` fact about the table extracted from
     the source on every run -/
-theorem no_hash_iteration : Gen.hashIterSites = [c!"bind.rs:remaining_keys.iter->BTreeMap"] := by decide
+theorem no_hash_iteration : Gen.hashIterSites = [c!"bind.rs:bind_object:HashSet.iter->BTreeMap"] := by decide
 
 /-- the interpreter's only uses of the environment and the file system: the argument list, the current directory (to
     locate the script), reading the script, and exiting -/
